@@ -204,8 +204,10 @@ def run(ctx):
     step = 16 if ctx.quick else 64
     hstep = 15.0 if ctx.quick else 3.0
     off = ctx.phase * hstep / 4.0
-    Ls = [i / step for i in range(step + 1)]
-    Cs = [0.5 * i / step for i in range(step + 1)] + [0.001, 0.37]
+    Ls = sorted(set([i / step for i in range(step + 1)] + [0.001, 0.01, 0.052, 0.0532, 0.999, 0.9999]))
+    # barely chromatic triples (below the chroma of any non-grey 8-bit colour, ~0.00106) are valid input too: a small chroma
+    # still tips single channels over a rounding boundary
+    Cs = [0.5 * i / step for i in range(step + 1)] + [1e-6, 1e-4, 5e-4, 9e-4, 0.001, 0.002, 0.004, 0.37]
     Hs = sorted({(off + i * hstep) % 360.0 for i in range(int(360 / hstep))} | {0.0, 360.0, 359.999, 29.23, 142.5, 264.05})
     m = 0
     for cnt, viol in ctx.pmap_chunks("mc.props.c10", "chunk_inverse", [[L, Cs, Hs] for L in Ls]):
